@@ -290,6 +290,11 @@ impl Tokenizer<'_> {
             }
         }
 
+        if !stack.is_empty() {
+            // The input ended before the attribute was closed.
+            return Err(KikiErr::Lex(end, None));
+        }
+
         self.state = State::Main;
         self.out.push(Token::OuterAttribute(Attribute {
             src: self.src[start.0..end.0].to_string(),
